@@ -501,12 +501,19 @@ def gen_kernels(repo):
     e = grab(wb, r'\}\s*else\s*\{\s*(\(\*s as u32\)\s*<<\s*1)\s*\}', 'write_residuals: fold non-negative')
     out.append(kernel_def('encRiceFoldPos', e, ['s'], {'s': ('s', 'i32')}, 'u32'))
     rb2 = ' '.join(fn_body(enc, 'encode_residuals').split())
-    shape = ('current[0] .checked_sub( (previous .iter() .rev() .zip(&parameters.coefficients) .map(|(x, y)| *x as i64 * *y as i64) '
-             '.sum::<i64>() >> parameters.shift) as i32, ) .ok_or(ResidualOverflow)?')
-    if shape.replace(' ', '') not in rb2.replace(' ', ''):
-        raise ExtractError('encode_residuals: body no longer has the shape `current[0].checked_sub((Σ x·c >> shift) as i32)`')
-    out.append('/-- `current[0].checked_sub((Σ x·c >> parameters.shift) as i32)` — `none` = ResidualOverflow -/\n'
-               'def encResidualStep (sample sum shift : Int) : Option Int := checkedSubS 32 sample (castS 32 (sum / 2 ^ shift.toNat))\n')
+    dotsum = ('(previous .iter() .rev() .zip(&parameters.coefficients) .map(|(x, y)| *x as i64 * *y as i64) .sum::<i64>() >> parameters.shift)')
+    full = 'i32::try_from( i64::from(current[0]) - ' + dotsum + ', ) .map_err(|_| ResidualOverflow)?'
+    truncated = 'current[0] .checked_sub( ' + dotsum + ' as i32, ) .ok_or(ResidualOverflow)?'
+    body = rb2.replace(' ', '')
+    if full.replace(' ', '') in body:
+        out.append('/-- `i32::try_from(i64::from(current[0]) - (Σ x·c >> parameters.shift))` — `none` = ResidualOverflow\n'
+                   '    (the i64 difference itself cannot overflow: |Σ x·c| < 2^53 for 32 taps of 32-bit samples and 16-bit coefficients) -/\n'
+                   'def encResidualStep (sample sum shift : Int) : Option Int := checkedSubS 32 sample (sum / 2 ^ shift.toNat)\n')
+    elif truncated.replace(' ', '') in body:
+        out.append('/-- `current[0].checked_sub((Σ x·c >> parameters.shift) as i32)` — `none` = ResidualOverflow -/\n'
+                   'def encResidualStep (sample sum shift : Int) : Option Int := checkedSubS 32 sample (castS 32 (sum / 2 ^ shift.toNat))\n')
+    else:
+        raise ExtractError('encode_residuals: body has neither known shape (full 64-bit difference / prediction truncated to i32)')
     fb = ' '.join(fn_body(enc, 'encode_fixed_subframe').split())
     if 'for (n, p) in r.iter().zip(*prev_order) { match n.checked_sub(*p)' not in fb:
         raise ExtractError('encode_fixed_subframe: difference loop changed shape')
